@@ -35,6 +35,64 @@ type c20Case struct {
 	Entry string   `json:"entry"`
 	Allow bool     `json:"allow"`
 	Yaml  bool     `json:"yaml"`
+	Base  struct {
+		Kind  string `json:"kind"`
+		Comps string `json:"comps"`
+	} `json:"base"`
+}
+
+// c20Sparse builds a sparse base (spec/Robust.tla): the root refers to component X of the kind in
+// ext.json, X's child sites refer on to components Y of ext.json, and the root's own components
+// section has the given layout.  ext.json is written into dir.
+func c20Sparse(kind, comps, dir string) any {
+	sites := map[string][][2]string{
+		"schemas":       {{"properties", "schemas"}, {"allOf", "schemas"}, {"not", "schemas"}, {"additionalProperties", "schemas"}},
+		"parameters":    {{"schema", "schemas"}, {"examples", "examples"}},
+		"headers":       {{"schema", "schemas"}, {"examples", "examples"}},
+		"requestBodies": {{"content.examples", "examples"}}, // (encoding headers are a position the loader does not visit: C02's finding)
+		"responses":     {{"headers", "headers"}, {"content.schema", "schemas"}, {"links", "links"}},
+		"callbacks":     {{"post.requestBody", "requestBodies"}, {"post.responses", "responses"}, {"parameters", "parameters"}},
+	}
+	extComps := map[string]any{}
+	put := func(k, name string, o any) {
+		if extComps[k] == nil {
+			extComps[k] = map[string]any{}
+		}
+		extComps[k].(map[string]any)[name] = o
+	}
+	x := c02Content{ID: "X"}
+	for _, s := range sites[kind] {
+		x.Ch = append(x.Ch, c02Child{Site: s[0], Kind: s[1], Ref: "#/components/" + s[1] + "/Y"})
+		put(s[1], "Y", c02Concrete(s[1], c02Content{ID: "Y" + s[1]}))
+	}
+	put(kind, "X", c02Concrete(kind, x))
+	ext := map[string]any{"openapi": "3.0.3", "info": map[string]any{"title": "ext", "version": "1"}, "paths": map[string]any{}, "components": extComps}
+	b, _ := json.Marshal(ext)
+	os.WriteFile(filepath.Join(dir, "ext.json"), b, 0o644)
+	root := map[string]any{"openapi": "3.0.3", "info": map[string]any{"title": "root", "version": "1"},
+		"paths": c02UseInOp(kind, "ext.json#/components/"+kind+"/X")}
+	other := "schemas"
+	if kind == "schemas" {
+		other = "parameters"
+	}
+	switch comps {
+	case "none":
+	case "empty":
+		root["components"] = map[string]any{}
+	case "other_only":
+		root["components"] = map[string]any{other: map[string]any{"Z": c02Concrete(other, c02Content{ID: "Z"})}}
+	case "same_only":
+		root["components"] = map[string]any{kind: map[string]any{"Z": c02Concrete(kind, c02Content{ID: "Z"})}}
+	default:
+		panic("harness: c20 layout " + comps)
+	}
+	// through the same decoder as the full base (json.Number leaves)
+	rb, _ := json.Marshal(root)
+	dec := json.NewDecoder(strings.NewReader(string(rb)))
+	dec.UseNumber()
+	var v any
+	dec.Decode(&v)
+	return v
 }
 
 type c20Node struct {
@@ -335,8 +393,11 @@ func c20Run(c *Case) []any {
 	if err := dec.Decode(&root); err != nil {
 		panic(err)
 	}
+	if tc.Base.Comps != "" && tc.Base.Comps != "full" {
+		root = c20Sparse(tc.Base.Kind, tc.Base.Comps, dir)
+	}
 	r := &c20Render{truncateAt: -1}
-	c20Applied = nil
+	c20Applied = []any{}
 	for _, m := range tc.Muts {
 		root = c20Apply(root, m, c.Idx, dir, r)
 	}
